@@ -733,6 +733,16 @@ func (g *gen) concurrent() Input {
 	in.Batches = in.Batches[:nBefore]
 	sch[7] = &schema{kind: 1 + g.r.Intn(2), grouped: true}
 	sch[8] = &schema{kind: 1 + g.r.Intn(2), grouped: true}
+	s9 := &schema{kind: 1 + g.r.Intn(3)}
+	if s9.kind == 3 {
+		s9.buckets = bucketLists[g.r.Intn(len(bucketLists))]
+	}
+	for _, ln := range freeLabelNames {
+		if g.r.Chance(35) {
+			s9.names = append(s9.names, ln)
+		}
+	}
+	sch[9] = s9
 	var groupedNames, freeNames []int
 	for n := 1; n <= 6; n++ {
 		if sch[n].grouped {
@@ -763,8 +773,12 @@ func (g *gen) concurrent() Input {
 				}
 				bt.Ops = append(bt.Ops, o)
 				continue
-			case len(freeNames) > 0 && g.r.Chance(12):
-				n := freeNames[g.r.Intn(len(freeNames))]
+			case g.r.Chance(15):
+				// outside groups: mostly a name nobody has reported before (9), from several goroutines
+				n := 9
+				if len(freeNames) > 0 && g.r.Chance(40) {
+					n = freeNames[g.r.Intn(len(freeNames))]
+				}
 				s := sch[n]
 				o := Op{Name: n, Labels: [][2]int{}}
 				for _, ln := range s.names {
@@ -931,6 +945,30 @@ func Gen(r *core.Rng, tier string) ([]core.In[Input], bool) {
 	for _, c := range Corpus() {
 		ins = append(ins, core.In[Input]{Input: c, Stream: "corpus"})
 	}
+	// the rounds of the corpus under EVERY list of choices of a small scope (start order, staggered
+	// start, hold or pass, who registers first): quick {0,1}^5 on the first round, thorough {0,1,2}^5 on all
+	alphabet, rounds := 2, 1
+	if tier == "thorough" {
+		alphabet, rounds = 3, 1000
+	}
+	for _, c := range Corpus() {
+		if len(c.Round) == 0 || rounds == 0 {
+			continue
+		}
+		rounds--
+		total := 1
+		for k := 0; k < 5; k++ {
+			total *= alphabet
+		}
+		for code := 0; code < total; code++ {
+			cc := c
+			cc.Sched = nil
+			for k, x := 0, code; k < 5; k, x = k+1, x/alphabet {
+				cc.Sched = append(cc.Sched, x%alphabet)
+			}
+			ins = append(ins, core.In[Input]{Input: cc, Stream: "schedules"})
+		}
+	}
 	g := &gen{r: r}
 	n, maxB := 400, 6
 	switch tier {
@@ -957,6 +995,6 @@ func Gen(r *core.Rng, tier string) ([]core.In[Input], bool) {
 
 var Driver = core.Driver[Input, Observation]{
 	Spec: core.Spec{Property: "C16", Imports: []string{"C16_Model", "C16_Spec", "C16_Corr"}, Corr: "C16_Corr", Triggers: []string{"F5a"}, ShrinkKey: "batches",
-		Rule: "histories of metric batches written as hooks write them (JSON lines, parsed by the real operation package) sent to a real MetricStorage with its own registry, Gather() canonicalised after every batch; 2 hooks, 3 groups, 6 metric names with a per-history schema (kind, grouped or not, ungrouped label names, buckets), varying label shapes with empty values for grouped metrics, integer and dyadic values, add/set shortcut fields, explicit expire, 15% of batches with one invalid operation; streams: corpus, random (groups never share (name, labels)), trigger (they may: F5a), informational (out-of-domain, never judged); the implementation's observations are judged against the model run with EVERY order of the batch's groups (Go map iteration); non-trivial = judged, >= 2 accepted batches, grouped operations, some group reported again in a later batch; stream concurrent (every 4th): a history, then a ROUND of 2-3 batches handed in at the same time by one goroutine each (groups pairwise different between goroutines; grouped set/add on the same new metric name from several goroutines, on different new names, on names the history knows, explicit expire, some ungrouped operations, 10% with an invalid operation; one hook or several), the interleaving steered through a prometheus.Registerer wrapper (a Register call is held until another goroutine is inside Register too, or all others are parked or have returned, or 3 ms have passed; who registers first, start order and staggered start are choices from the input's sched list); then 0-2 batches one after the other again (reporting groups and new names of the round again); compared only after all goroutines have returned: failure flags, and Gather() judged against the model with the round's batches as atomic steps in EVERY order, P_case = the reference registry after SOME order; non-trivial there = judged and >= 2 accepted batches of the round with grouped set/add; distinct = distinct input term (history and round)"},
+		Rule: "histories of metric batches written as hooks write them (JSON lines, parsed by the real operation package) sent to a real MetricStorage with its own registry, Gather() canonicalised after every batch; 2 hooks, 3 groups, 6 metric names with a per-history schema (kind, grouped or not, ungrouped label names, buckets), varying label shapes with empty values for grouped metrics, integer and dyadic values, add/set shortcut fields, explicit expire, 15% of batches with one invalid operation; streams: corpus, schedules (the corpus rounds under every choice list of a small scope), random (groups never share (name, labels)), trigger (they may: F5a), informational (out-of-domain, never judged); the implementation's observations are judged against the model run with EVERY order of the batch's groups (Go map iteration); non-trivial = judged, >= 2 accepted batches, grouped operations, some group reported again in a later batch; stream concurrent (every 4th): a history, then a ROUND of 2-3 batches handed in at the same time by one goroutine each (groups pairwise different between goroutines; grouped set/add on the same new metric name from several goroutines, on different new names, on names the history knows, explicit expire, some ungrouped operations - mostly on one new ungrouped name -, 10% with an invalid operation; one hook or several), the interleaving steered through a prometheus.Registerer wrapper (a Register call is held until another goroutine is inside Register too, or all others are parked or have returned, or 3 ms have passed; who registers first, start order and staggered start are choices from the input's sched list); then 0-2 batches one after the other again (reporting groups and new names of the round again); compared only after all goroutines have returned: failure flags, and Gather() judged against the model with the round's batches as atomic steps in EVERY order, P_case = the reference registry after SOME order; non-trivial there = judged and >= 2 accepted batches of the round with grouped set/add; distinct = distinct input term (history and round)"},
 	Gen: Gen, Run: Run, Render: Render, PerShard: 700, Workers: 8, CaseTimout: 30 * time.Second,
 }
